@@ -221,9 +221,20 @@ def transporterCovolOk (I1 I2 : LeftIdeal) (T : Lattice) : Bool :=
 /-- the element 1 -/
 def elemOne : Elem := ⟨1, ⟨1, 0, 0, 0⟩⟩
 
-/-- `O` is a ring: HNF, contains 1, closed under multiplication -/
+/-- the conjugates of the basis vectors lie in the lattice -/
+def conjContained (O : Lattice) : Bool := idx4.all fun k => (latContains O (algConj (latCol O k))).1
+
+/-- `O` is a ring stable under conjugation: HNF, contains 1, closed under multiplication and conjugation -/
 def isOrderCert (p : Int) (O : Lattice) : Bool :=
-  latWf O && (latContains O elemOne).1 && prodsContained p O O O
+  latWf O && (latContains O elemOne).1 && prodsContained p O O O && conjContained O
+
+/-- `x / n` -/
+def elemDivInt (x : Elem) (n : Int) : Elem := ⟨x.denom * n, x.coord⟩
+
+/-- every `b̄_k·c_i / n` (b_k basis of `l1`, c_i basis of `l2`) lies in `T`, i.e. `l̄1·l2 ⊆ n·T` -/
+def conjProdsContained (p n : Int) (l1 l2 T : Lattice) : Bool :=
+  idx4.all fun k => idx4.all fun i =>
+    (latContains T (elemDivInt (algMul p (algConj (latCol l1 k)) (latCol l2 i)) n)).1
 
 /-- Certificate check for `quat_lideal_right_order(O'; I)`: `O'` is a ring (contains 1, closed under
     multiplication), `I·O' ⊆ I`, and `O'` has the same covolume as the parent order of `I`
@@ -231,6 +242,16 @@ def isOrderCert (p : Int) (O : Lattice) : Bool :=
 def isRightOrderCert (p : Int) (I : LeftIdeal) (O' : Lattice) : Bool :=
   isOrderCert p O' && latWf I.lattice && prodsContained p I.lattice O' I.lattice &&
   covolRatioIs O' I.order 1 1
+
+/-- **Complete** certificate check for `quat_lattice_right_transporter(T; I1, I2)` on left ideals of the same order:
+    `I1·T ⊆ I2` *and* `Ī1·I2 ⊆ N(I1)·T`.  For `I1` of norm `N(I1)` with `N(I1) ∈ Ī1·I1` (e.g. any ideal with a generator
+    of cofactor coprime to the norm) the transporter is `N(I1)⁻¹·Ī1·I2`, so acceptance means `T` *is* the transporter. -/
+def isRightTransporterExact (p : Int) (I1 I2 : LeftIdeal) (T : Lattice) : Bool :=
+  isRightTransporterCert p I1.lattice I2.lattice T && latWf T && I1.norm != 0 && I2.lattice.denom != 0 &&
+  conjProdsContained p I1.norm I1.lattice I2.lattice T
+
+/-- complete certificate check for `quat_lideal_right_order` -/
+def isRightOrderExact (p : Int) (I : LeftIdeal) (O' : Lattice) : Bool := isRightTransporterExact p I I O'
 
 /-- the lattice `L·x` (columns `b_k·x`), in HNF with reduced denominator: the same computation as
     `quat_lideal_create_principal` performs on the order's basis -/
